@@ -26,10 +26,12 @@ def plan(pid, tier):
         sd = dict(L=2, D=6) if q else dict(L=3, D=7)
         legs = [hx_leg("SAN", profile="rel", props=["C03", "C01", "C02", "C09"], san="asan"), hx_leg("SA", props=["C03"], **sa), hx_leg("SA", profile="rel", props=["C03"], **sa), hx_leg("SB", props=["C03"], **(dict(D=5) if q else dict(D=6))), hx_leg("SB", profile="rel", props=["C03"], **sb),
                 hx_leg("SD", profile="rel", props=["C03"], **sd)]
+        if not q:
+            legs.append(hx_leg("SAN", props=["C03", "C01", "C09"], san="miri", miri_depth=2))
         return legs
     if pid == "C04":
         return [hx_leg("SA", props=["C04"], drop_world=True), hx_leg("SD", props=["C04"], drop_world=True), hx_leg("SC", features=("wide",), props=["C04"], drop_world=True)] + \
-               ([] if q else [hx_leg("SAN", profile="rel", props=["C04", "C02"], san="asan", drop_world=True)])
+               ([] if q else [hx_leg("SAN", profile="rel", props=["C04", "C02"], san="asan", drop_world=True), hx_leg("SAN", props=["C04", "C02", "C01"], san="miri", miri_depth=2, drop_world=True)])
     if pid == "C06":
         return [hx_leg("SA", props=["C06"]), hx_leg("SB", props=["C06"])]
     if pid == "C07":
@@ -40,11 +42,12 @@ def plan(pid, tier):
     if pid == "C09":
         return [hx_leg("SA", props=["C09"], **(dict(L=3, D=8) if q else dict(L=5, D=10))), hx_leg("SB", props=["C09"], **(dict(D=6) if q else dict(D=8)))]
     if pid == "C10":
-        return [hx_leg("SF", props=["C10", "C01", "C02", "C04", "C06", "C09", "C12"]), hx_leg("SE", props=["C10", "C01", "C04", "C12"])] + ([] if q else [hx_leg("LIMIT", depth=2), hx_leg("SAN", profile="rel", props=["C10", "C01", "C02", "C04"], san="asan")])
+        return [hx_leg("SF", props=["C10", "C01", "C02", "C04", "C06", "C09", "C12"]), hx_leg("SE", props=["C10", "C01", "C04", "C12"])] + ([] if q else [hx_leg("LIMIT", depth=2), hx_leg("SAN", profile="rel", props=["C10", "C01", "C02", "C04"], san="asan"), hx_leg("SF", props=["C10", "C01", "C04"], san="miri", miri_depth=2)])
     if pid == "C12":
         return [hx_leg("SA", props=["C12"]), hx_leg("SB", props=["C12"]), hx_leg("LIMIT", depth=2 if q else 4)]
     if pid == "C13":
-        return [hx_leg("SD", props=["C13", "C01", "C02", "C06", "C09", "C12"], drop_world=True, **(dict(L=2, D=7) if q else dict(L=3, D=8)))]
+        return [hx_leg("SD", props=["C13", "C01", "C02", "C06", "C09", "C12"], drop_world=True, **(dict(L=2, D=7) if q else dict(L=3, D=8)))] + \
+               ([] if q else [hx_leg("SD", props=["C13", "C01", "C02"], san="miri", miri_depth=2)])
     if pid == "C17":
         return [hx_leg("SG", features=("events",), props=["C17"])]
     raise KeyError(pid)
